@@ -158,8 +158,9 @@ static void mode_lockstep(void){
   vc_rng r; vc_case_rng(&r,33); int err; int Fs=VC_PICK(&r,vk_rates), ch=vc_chance(&r,3,4)?2:1; OpusEncoder *e=opus_encoder_create(Fs,ch,vc_chance(&r,1,2)?OPUS_APPLICATION_VOIP:OPUS_APPLICATION_AUDIO,&err); OpusDecoder *d=opus_decoder_create(Fs,ch,&err);
   opus_encoder_ctl(e,VK_SET_FORCE_MODE_REQUEST,VK_MODE_SILK); int per=vc_range(&r,7000,40000); opus_encoder_ctl(e,OPUS_SET_BITRATE(per*ch)); opus_encoder_ctl(e,OPUS_SET_COMPLEXITY(vc_below(&r,11))); if(vc_chance(&r,1,3)){ opus_encoder_ctl(e,OPUS_SET_INBAND_FEC(1)); opus_encoder_ctl(e,OPUS_SET_PACKET_LOSS_PERC(vc_range(&r,5,40))); }
   if(vc_chance(&r,1,2)) opus_encoder_ctl(e,OPUS_SET_BANDWIDTH(OPUS_BANDWIDTH_NARROWBAND+(int)vc_below(&r,3))); if(ch==2&&vc_chance(&r,1,3)) opus_encoder_ctl(e,OPUS_SET_FORCE_CHANNELS(2));
+  if(vc_chance(&r,1,3)){ opus_encoder_ctl(e,OPUS_SET_VBR(0)); vc_count("lockstep_cbr_streams",1); }   /* hard CBR: the rate loop re-quantises the gains several times per frame */
   silk_encoder *se=(silk_encoder*)((char*)e+((int*)e)[1]); silk_decoder_state *sd=(silk_decoder_state*)((char*)d+((int*)d)[1]);
-  vc_siggen g; vs_init(&g,vc_chance(&r,1,2)?VS_SPEECHLIKE:(int)vc_below(&r,VS_NFINITE),Fs,ch,(float)(0.05+0.7*vc_unit(&r)),vc_next(&r)); static float in[5760*2], out[5760*2]; unsigned char pk[1500]; int fidx=vc_range(&r,2,8); double mono=vc_chance(&r,1,2)?vc_unit(&r):0;   /* how close to mono the stereo input is (mid-only frames) */
+  vc_siggen g; vs_init(&g,vc_chance(&r,1,2)?VS_SPEECHLIKE:(int)vc_below(&r,VS_NFINITE),Fs,ch,(float)(0.05+0.7*vc_unit(&r)),vc_next(&r)); static float in[5760*2], out[5760*2]; unsigned char pk[1500]; int fidx=vc_chance(&r,1,2)?vc_range(&r,4,5):vc_range(&r,2,8); double mono=vc_chance(&r,1,2)?vc_unit(&r):0;   /* how close to mono the stereo input is (mid-only frames) */
   opus_verif_silk_params_cb=ls_cb; ls_base=sd;
   for(int k=0;k<40;k++){ if(vc_chance(&r,1,6)) opus_encoder_ctl(e,OPUS_SET_BITRATE(vc_range(&r,6000,40000)*ch)); if(vc_chance(&r,1,10)) fidx=vc_range(&r,2,8); if(vc_chance(&r,1,8)) mono=vc_chance(&r,1,2)?vc_unit(&r):0;
     int fs=vk_frame_samples(Fs,fidx); vs_fill(&g,in,fs); if(ch==2&&mono>0) for(int i=0;i<fs;i++){ float m=0.5f*(in[2*i]+in[2*i+1]); in[2*i]=(float)(mono*m+(1-mono)*in[2*i]); in[2*i+1]=(float)(mono*m+(1-mono)*in[2*i+1]); }
